@@ -235,7 +235,8 @@ CHECKS["C10"] = dict(
     rule="grid: chip family {OPN2,OPNA} x note offset {-60,-24,-12,-1,0,1,7,12,24,60} x melodic/percussion (drum key) x all 128 keys x 67 bend values x bend ranges "
          "(RPN0 MSB 0/1/2/12/24, LSB 0/50/99), plus all 16384 bend values on thinned key sets; every (block,F-number) pair written after a note-on or bend is decoded "
          "with the datasheet clock and must denote 440*2^((p-69)/12) within one F-number step, with unchanged multiplier registers, for p inside the native range; "
-         "frequency monotone in p. scenarios (rapidcheck): bend fan-out over histories with key-down and pedal-held notes; portamento with overlapping keys (every re-pitch "
+         "frequency monotone in p (a call that writes no frequency is judged by the pair the chip holds from earlier writes). scenarios (rapidcheck): bend fan-out over histories with key-down and "
+         "pedal-held notes and bend-range (RPN 0) changes in between; portamento with overlapping keys incl. keys 0/1/2/126/127 (start tone at the note-on, every re-pitch "
          "between start and end tone, end tone reached). Non-trivial = a bent or block>=1 grid point / a history with a judged bend or glide; grid points distinct by construction.",
     assumptions=[
         "RPN 0 LSB: both 1/128-semitone (what the code does) and cents (MIDI RP-018) readings are accepted (p interval)",
